@@ -335,3 +335,10 @@ def check_case(case) -> Obs:
         obs.cls("volume-below-half-a-hundredth")
     obs.cls("dev:" + dev)
     return obs
+
+
+def extra_campaign(tier, seed, shard, nshards, st, known):
+    """Thorough tier: a coverage-guided libFuzzer campaign (atheris) over byte strings decoded into cases of this module."""
+    from vf.fuzzrun import campaign
+
+    campaign(PID, tier, seed, shard, nshards, st, known, runs=20000, seeds_corpus=[b"\x00\x01\x10\x27\x00\x00\x01\x05", b"\x04\x20\x03\x02\x01"])
